@@ -465,6 +465,67 @@ func gen(r *rand.Rand, tier string, emit func(core.Case)) {
 		}
 		emit(core.Case{Kind: "planted-indices", Ops: b.ops})
 	}
+	// 7c. readers that stay open while the group is written, synced, rotated and pruned (the reader
+	// SearchForEndHeight hands to catchupReplay, a reader over the whole group)
+	for c := 0; c < 120*scale; c++ {
+		b := newBuilder(r)
+		b.hl = []int{30, 60, 120}[r.Intn(3)]
+		b.tl = []int{0, 0, 0, 300}[r.Intn(4)]
+		b.open()
+		b.work(2 + r.Intn(6))
+		names := []string{"a", "b", "c"}
+		nOpen := 0
+		steps := 3 + r.Intn(8)
+		for k := 0; k < steps; k++ {
+			switch r.Intn(8) {
+			case 0, 1:
+				n := names[r.Intn(len(names))]
+				if r.Intn(3) == 0 && len(b.all) > 0 {
+					b.ops = append(b.ops, fmt.Sprintf("rsearch name=%s h=%d ign=%d", n, b.all[r.Intn(len(b.all))], r.Intn(2)))
+				} else {
+					b.ops = append(b.ops, fmt.Sprintf("ropen name=%s idx=%d", n, r.Intn(3)))
+				}
+				nOpen++
+			case 2, 3, 4:
+				b.ops = append(b.ops, fmt.Sprintf("rnext name=%s n=%d", names[r.Intn(len(names))], 1+r.Intn(3)))
+			case 5:
+				b.emitWrite(b.msg(0), true)
+				b.ops = append(b.ops, "rotate")
+			default:
+				b.work(1 + r.Intn(3))
+			}
+		}
+		for _, n := range names {
+			b.ops = append(b.ops, fmt.Sprintf("rnext name=%s n=100", n))
+		}
+		b.ops = append(b.ops, "sync")
+		for _, n := range names {
+			b.ops = append(b.ops, fmt.Sprintf("rnext name=%s n=100", n))
+			if r.Intn(2) == 0 {
+				b.ops = append(b.ops, "rclose name="+n)
+			}
+		}
+		b.look()
+		emit(core.Case{Kind: "open-readers", Ops: b.ops})
+	}
+	// 7d. a reader goroutine against a writer that syncs and rotates
+	for c := 0; c < 25*scale; c++ {
+		b := newBuilder(r)
+		b.hl = []int{30, 60}[r.Intn(2)]
+		b.tl = 0
+		b.open()
+		b.work(4 + r.Intn(8))
+		b.ops = append(b.ops, "sync")
+		for k := 0; k < 1+r.Intn(3); k++ {
+			var recs []string
+			for i := 0; i < 2+r.Intn(6); i++ {
+				recs = append(recs, hx(b.msg(0)))
+			}
+			b.ops = append(b.ops, "race recs="+strings.Join(recs, ","))
+		}
+		b.look()
+		emit(core.Case{Kind: "reader-vs-writer", Ops: b.ops})
+	}
 	// 8. a record above the size limit is refused and leaves no trace
 	{
 		b := newBuilder(r)
@@ -480,7 +541,7 @@ func gen(r *rand.Rand, tier string, emit func(core.Case)) {
 	// 9. malformed and out-of-state op lines (both sides must refuse them the same way)
 	bad := []string{"open", "open hl=1 tl=1", "open hl=x tl=1 e0=-", "write", "write data=zz", "write data=abc", "sync now",
 		"rotate 1", "crash", "crash cut=-1", "flip f=h off=1", "flip f=h off=1 x=0", "flip f=h off=1 x=256", "flip f=q off=1 x=1",
-		"raw", "mkfile", "mkfile i=1", "mkfile i=x recs=-", "mkfile i=1 recs=zz", "search h=1", "search ign=1", "search h=a ign=0", "recover h=1", "recover e0=-", "readall x", "ls x", "frobnicate", "stop 1"}
+		"raw", "mkfile", "mkfile i=1", "mkfile i=x recs=-", "mkfile i=1 recs=zz", "search h=1", "search ign=1", "search h=a ign=0", "recover h=1", "recover e0=-", "readall x", "ls x", "frobnicate", "stop 1", "ropen", "ropen name=a", "ropen name=a idx=99", "rnext name=zz n=1", "rnext name=a", "rclose name=zz", "rsearch name=a h=1", "race", "race recs=zz"}
 	for c := 0; c < 30*scale; c++ {
 		b := newBuilder(r)
 		var ops []string
